@@ -24,6 +24,6 @@ def run(c, replay):
     if replay:
         c.run_layer(b, "TestVerif_C19_walker", "walker", replay=replay, deadline_s=120, env=env)
         return
-    c.run_layer(b, "TestVerif_C19_walker", "walker", deadline_s=c.pick(55, 780), env=env,
+    c.run_layer(b, "TestVerif_C19_walker", "walker", deadline_s=c.pick(100, 780), env=env,
                 rule="every tree within the bounds (states) x 12 walker values x 6 skip lists x 1-2 root forms, real Reader.readFiles vs a "
                      "reference walker on os.ReadDir/Lstat/Stat, multisets of delivered paths; non-trivial = walks with a non-empty expected list")
